@@ -281,7 +281,17 @@ def digits_of(eng: Any, mag: Any, min_digits: int, max_digits: int = 40) -> tupl
     for _ in range(nd):
         out.append(sym.mod(q, 10) + 48)
         q = sym.floordiv(q, 10)
-    return tuple(reversed(out))
+    ds = tuple(reversed(out))
+    if isinstance(mag, SInt) and nd > 1 and getattr(eng, "decimal_lemmas", False):
+        # lemma (proved here as its own obligation, then available to later obligations): Horner evaluation of the
+        # digits gives the number back -- the form in which the scanners rebuild it
+        h: Any = 0
+        for d in ds:
+            h = h * 10 + (d - 48)
+        fact = sym.Implies(And(mag >= 0, mag < 10**nd), h == mag)
+        eng.oblige(fact, f"lemma.decimal-digits({nd})", kind="lemma", site=eng.cur_site())
+        eng.assume(fact)
+    return ds
 
 
 def format_int(eng: Any, v: Any, spec: str) -> Any:
